@@ -113,12 +113,20 @@ Proof.
   apply (proj1 (NoDup_nth t 0) NDt) in Eq; try lia.
 Qed.
 
+(* canonical draws: the draw of step i lies in [0, i] (what rand.Intn(i+1) returns) *)
+Fixpoint canon (i : nat) (ds : list nat) : Prop :=
+  match i, ds with
+  | O, [] => True
+  | S i', d :: ds' => d <= S i' /\ canon i' ds'
+  | _, _ => False
+  end.
+
 Lemma shuffle_from_surj i : forall a t, NoDup a -> Permutation t a -> (i < length a \/ i = 0) ->
   (forall k, i < k -> k < length a -> nth k t 0 = nth k a 0) ->
-  exists ds, length ds = i /\ forall rest, shuffle_from i (ds ++ rest) a = (t, rest).
+  exists ds, canon i ds /\ forall rest, shuffle_from i (ds ++ rest) a = (t, rest).
 Proof.
   induction i as [|i IH]; intros a t ND P Hi Hag.
-  - exists []. split; auto. intros rest. simpl. f_equal.
+  - exists []. split; [exact I|]. intros rest. simpl. f_equal.
     symmetry. apply (agree_except_one t a 0); auto. intros k Hk Hn. apply Hag; lia.
   - assert (Hl : S i < length a) by lia.
     pose proof (Permutation_length P) as L.
@@ -140,7 +148,7 @@ Proof.
       { assert (j = S i) by lia. subst j. auto. }
       destruct (Nat.eqb_spec k (S i)) as [->|Hne]; [auto|].
       apply Hag; lia.
-    + exists (j :: ds). split; [simpl; lia|]. intros rest. simpl app. cbn [shuffle_from].
+    + exists (j :: ds). split; [simpl; split; [lia|exact Lds]|]. intros rest. simpl app. cbn [shuffle_from].
       rewrite Nat.mod_small by lia. fold a1. apply Hds.
 Qed.
 
@@ -151,6 +159,55 @@ Proof.
   - destruct a; simpl; lia.
   - intros k H1 H2. lia.
   - exists ds. exact H.
+Qed.
+
+(* ------------------------------------------------------------------ the shuffle is a bijection: uniform draws give
+   uniform orders.  Step i fixes position i for good (later steps swap below it), so two canonical draw vectors that
+   differ first at step i put different members at position i. *)
+Lemma shuffle_from_keeps_high i : forall ds a k, (i < length a \/ i = 0) -> i < k ->
+  nth k (fst (shuffle_from i ds a)) 0 = nth k a 0.
+Proof.
+  induction i as [|i IH]; intros ds a k Hi Hk; [reflexivity|]. cbn [shuffle_from]. destruct ds as [|d t]; [reflexivity|].
+  assert (Hl : S i < length a) by lia.
+  assert (Hj : d mod S (S i) <= S i) by (pose proof (Nat.mod_upper_bound d (S (S i)) ltac:(lia)); lia).
+  rewrite IH by (rewrite ?swapn_length; lia). rewrite nth_swapn by lia.
+  destruct (Nat.eqb_spec k (d mod S (S i))); [lia|]. destruct (Nat.eqb_spec k (S i)); [lia|]. reflexivity.
+Qed.
+Lemma canon_length i : forall ds, canon i ds -> length ds = i.
+Proof. induction i as [|i IH]; intros [|d t] H; simpl in *; try tauto. f_equal. apply IH. tauto. Qed.
+
+Lemma shuffle_from_inj i : forall a ds ds', NoDup a -> (i < length a \/ i = 0) -> canon i ds -> canon i ds' ->
+  fst (shuffle_from i ds a) = fst (shuffle_from i ds' a) -> ds = ds'.
+Proof.
+  induction i as [|i IH]; intros a ds ds' ND Hi C C' E.
+  - destruct ds, ds'; simpl in *; tauto.
+  - destruct ds as [|d t], ds' as [|d' t']; simpl in C, C'; try tauto. destruct C as [Hd C], C' as [Hd' C'].
+    assert (Hl : S i < length a) by lia. cbn [shuffle_from] in E. rewrite !Nat.mod_small in E by lia.
+    assert (At : forall x, x <= S i -> nth (S i) (swapn a (S i) x) 0 = nth x a 0).
+    { intros x Hx. rewrite nth_swapn by lia. destruct (Nat.eqb_spec (S i) x) as [<-|]; auto. rewrite Nat.eqb_refl. reflexivity. }
+    assert (Ed : d = d').
+    { assert (E1 : nth (S i) (fst (shuffle_from i t (swapn a (S i) d))) 0 = nth (S i) (fst (shuffle_from i t' (swapn a (S i) d'))) 0) by (rewrite E; reflexivity).
+      rewrite !shuffle_from_keeps_high in E1 by (rewrite ?swapn_length; lia). rewrite !At in E1 by lia.
+      apply (proj1 (NoDup_nth a 0) ND) in E1; lia. }
+    subst d'. f_equal. apply (IH (swapn a (S i) d)); auto.
+    + eapply Permutation_NoDup; [apply Permutation_sym, swapn_perm; lia|auto].
+    + rewrite swapn_length. lia.
+Qed.
+
+(* every order of the members is produced by exactly one canonical draw vector: with draws uniform in their ranges
+   (rand.Intn) every order - hence every choice of a partition's replicas - is equally likely *)
+Theorem shuffle_bijective a t : NoDup a -> Permutation t a ->
+  exists ds, (canon (length a - 1) ds /\ fst (shuffle ds a) = t) /\
+             forall ds', canon (length a - 1) ds' -> fst (shuffle ds' a) = t -> ds' = ds.
+Proof.
+  intros ND P. destruct (shuffle_from_surj (length a - 1) a t ND P) as (ds & C & H).
+  - destruct a; simpl; lia.
+  - intros k H1 H2. lia.
+  - exists ds. assert (Et : fst (shuffle ds a) = t).
+    { unfold shuffle. specialize (H []). rewrite app_nil_r in H. rewrite H. reflexivity. }
+    split; [split; auto|]. intros ds' C' E'. apply (shuffle_from_inj (length a - 1) a); auto.
+    + destruct a; simpl; lia.
+    + unfold shuffle in E', Et. rewrite E', Et. reflexivity.
 Qed.
 
 Lemma place_loop_acc p r : forall draws a acc,
